@@ -14,6 +14,7 @@ all traces).  This is abstract interpretation over a finite domain; nothing is e
 from __future__ import annotations
 
 import ast
+import os
 from dataclasses import dataclass, field
 from typing import Any, Callable, Optional
 
@@ -1078,7 +1079,7 @@ class Interp:
         if nm in self.record_calls:
             recv = self.ev(c.func.value, env, depth) if isinstance(c.func, ast.Attribute) else None
             self.trace.append(Effect("call", nm, tuple(args), kwargs, node=c, fn=self.fn_stack[-1], recv=recv))
-        if isinstance(c.func, (ast.Subscript, ast.IfExp)) and not c.keywords and not any(isinstance(a, ast.Starred) for a in c.args):
+        if isinstance(c.func, (ast.Subscript, ast.IfExp, ast.Call)) and not c.keywords and not any(isinstance(a, ast.Starred) for a in c.args):
             # the callee is looked up in a table / chosen by a condition (TABLE[flag](x), (min if flag else max)(xs)): evaluate it, then call the value
             fv_ = self.ev(c.func, env, depth)
             if isinstance(fv_, Sym) and fv_.tag.startswith(("builtin:", "operator.")):
@@ -1098,6 +1099,8 @@ class Interp:
                 return self.apply(fv_, args, env, depth)
             if isinstance(fv_, Sym) and fv_.tag.count(".") == 1 and fv_.tag.split(".")[0] in env and not any(ch in fv_.tag for ch in "([ :~"):
                 return self.apply(fv_, args, env, depth)       # a bound method kept in a table: table[name](x)
+            if isinstance(c.func, ast.Call) and fv_ is UNKNOWN:
+                self.undecided.append(f"the callee of '{norm(c)[:50]}' is the result of a call the model does not follow")
         # a local name bound to a builtin function / an operator-module function
         alias = env.get(c.func.id) if isinstance(c.func, ast.Name) else None
         if isinstance(alias, Sym) and alias.tag.startswith("builtin:"):
@@ -1747,9 +1750,26 @@ class Interp:
             v = self.ev(c.func.value, env, depth)
             if isinstance(v, list):
                 return list(v)
+        if isinstance(c.func, ast.Name) and c.func.id not in env and c.func.id in _VALUE_BUILTINS:
+            concrete_ = (int, float, str, bool, list, dict, set, tuple, type(None), Obj, TypeV)
+            if c.func.id in _ITER_BUILTINS and len(args) >= 1 and any(isinstance(a_, (int, float, bool, type(None))) and a_ is not UNKNOWN
+                                                                          for a_ in (args if c.func.id == "zip" else args[:1])) \
+                    and not (c.func.id in ("min", "max", "sum") and len(args) > 1):
+                self.throw(f"TypeError: {c.func.id}() of a value that is not iterable", c)      # what Python does
+            if args and all(isinstance(a_, concrete_) and a_ is not UNKNOWN for a_ in args) and all(isinstance(v_, concrete_) and v_ is not UNKNOWN for v_ in kwargs.values()):
+                # a builtin applied to values the model holds, for which it has no semantics: whatever depends on the result would be decided by
+                # guessing both ways - the run is marked as not followed instead
+                self.undecided.append(f"builtin {c.func.id}({', '.join(type(a_).__name__ for a_ in args)}) is not modelled for these arguments")
+            if os.environ.get("VERIF_DEBUG_FALLTHROUGH"):
+                with open(os.environ["VERIF_DEBUG_FALLTHROUGH"], "a") as fh_:
+                    fh_.write(f"{c.func.id}({', '.join(type(a).__name__ for a in args)}) in {self.fn_stack[-1].fullname if self.fn_stack else '?'}\n")
         return UNKNOWN
 
 
+_VALUE_BUILTINS = frozenset(("getattr", "type", "vars", "id", "dict", "list", "set", "frozenset", "tuple", "sorted", "reversed", "min", "max", "sum", "any", "all", "len", "abs",
+                             "round", "divmod", "int", "float", "bool", "str", "enumerate", "zip", "map", "filter", "range", "iter", "next", "callable", "isinstance",
+                             "issubclass", "hasattr", "slice", "object", "pow", "repr", "hash", "ord", "chr", "bin", "hex", "format", "setattr", "delattr"))
+_ITER_BUILTINS = frozenset(("len", "zip", "iter", "all", "any", "sum", "min", "max", "sorted", "list", "tuple", "set", "frozenset", "enumerate", "reversed"))
 _MUTATORS = ("append", "appendleft", "extend", "extendleft", "insert", "pop", "popleft", "popitem", "remove", "discard", "clear", "add", "update", "sort", "reverse",
              "setdefault", "rotate", "intersection_update", "difference_update", "symmetric_difference_update")
 _CONTAINER_METHODS = _MUTATORS + ("union", "intersection", "difference")
